@@ -58,9 +58,11 @@ impl ViMode for ViReplace {
 				self.register_and_return()
 			}
 
+			// The tab key types a tab, like the character does (there is nothing to complete here)
 			E(K::Char('I'), M::CTRL) |
 			E(K::Tab, M::NONE) => {
-				self.pending_cmd.set_verb(VerbCmd(1,Verb::Complete));
+				self.pending_cmd.set_verb(VerbCmd(1,Verb::ReplaceChar('\t')));
+				self.pending_cmd.set_motion(MotionCmd(1,Motion::ForwardChar));
 				self.register_and_return()
 			}
 
